@@ -284,6 +284,18 @@ class _Linalg:
         p = _plain(a)
         if p is not None:
             return np.linalg.norm(p, *args, **kwargs)
+        axis = kwargs.get("axis") if not args and set(kwargs) <= {"axis"} else None
+        if isinstance(axis, (int, np.integer)) and _obj(a).ndim == 2:
+            # Euclidean length of every row (axis=1) / column (axis=0) of a matrix
+            m = _obj(a)
+            m = m if axis in (1, -1) else m.T
+            out = np.empty(m.shape[0], dtype=object)
+            for i in range(m.shape[0]):
+                acc = 0.0
+                for e in m[i].tolist():
+                    acc = acc + e * e
+                out[i] = sym_sqrt(acc)
+            return out.view(SymArray)
         if args or kwargs:
             raise PathAbort("linalg.norm with options on symbolic array")
         a = _obj(a)
